@@ -134,6 +134,31 @@ def _values(t):
     return t
 
 
+def _lift_choice(t):
+    """`(A if c else B)[i].item()` is `A[i].item() if c else B[i].item()`; `np.arange(n)[i]` is i and
+    `(np.arange(n) + b)[i]` is i + b (and `.item()` of such a number is the number)."""
+    if t is None:
+        return t
+    item = False
+    core = t
+    if core[0] == "call" and core[1][0] == "attr" and core[1][2] == "item" and not core[2] and not core[3]:
+        item, core = True, core[1][1]
+    if core[0] == "idx" and core[1][0] == "sel":
+        c, a, b = core[1][1], core[1][2], core[1][3]
+        wrap = (lambda x: ("call", ("attr", x, "item"), (), ())) if item else (lambda x: x)
+        return ("sel", c, _lift_choice(wrap(("idx", a, core[2]))), _lift_choice(wrap(("idx", b, core[2]))))
+    if core[0] == "idx":
+        base, i = core[1], core[2]
+        ar = lambda x: (x[0] == "call" and x[1] == ("mod", "numpy.arange") and len(x[2]) == 1 and not x[3]) or \
+                       (x[0] == "alloc" and x[1] == "numpy.arange" and len(x[2]) == 1 and not x[3])
+        if ar(base):
+            return i
+        if base[0] == "bin" and base[1] == "+" and (ar(base[2]) or ar(base[3])):
+            other = base[3] if ar(base[2]) else base[2]
+            return ("bin", "+", *sorted([i, other], key=repr))
+    return t
+
+
 def check_row_ids(chk, rep, repo, only=None, floor=2):
     n = 0
     # a private helper (other than the graph builders themselves) is analysed inside the functions that call it, where
@@ -169,7 +194,7 @@ def check_row_ids(chk, rep, repo, only=None, floor=2):
             n += 1
             args = dict(zip(["idx", "label", "features"], ev.value[2]))
             args.update(dict(ev.value[3]))
-            idx, feats = _values(args.get("idx")), _values(args.get("features"))
+            idx, feats = _lift_choice(_values(args.get("idx"))), _values(args.get("features"))
             if idx is not None and idx[0] == "sel":
                 # `idx = i if I is None else I[i].item()`: each arm under its own condition
                 arms = [(idx[2], ev.guards + ((idx[1], True),)), (idx[3], ev.guards + ((idx[1], False),))]
